@@ -15,6 +15,7 @@ mod codec;
 mod pcol;
 mod galgo;
 mod vecidx;
+mod exec;
 mod q;
 mod qmeta;
 mod txstress;
@@ -44,6 +45,7 @@ fn main() {
         "pcol" => pcol::main(&opts),
         "galgo" => galgo::main(&opts),
         "vec" => vecidx::main(&opts),
+        "exec" => exec::main(&opts),
         "snapfault" => snap::faults(&opts),
         "q" => q::main(&opts),
         "qprobe" => q::probe(&opts),
